@@ -621,6 +621,9 @@ fn c06_alphabet() -> Vec<Req> {
         Req::Del(vec![b"a".to_vec(), b"a".to_vec()]),
         Req::Del(vec![b"c".to_vec()]),
         Req::Set(b"b".to_vec(), big),
+        // three keys, the first absent; a value that ends with a lone CR
+        Req::Del(vec![b"c".to_vec(), b"a".to_vec(), b"b".to_vec()]),
+        Req::Set(b"a".to_vec(), b"x\r".to_vec()),
     ]
 }
 
@@ -752,7 +755,7 @@ fn words_of(alpha: &[Req], depth: usize) -> Vec<Vec<Req>> {
 
 fn c06(job: &Job, sh: &mut Shard, t0: Instant) {
     let alpha = c06_alphabet();
-    let small: Vec<Req> = alpha[..12].to_vec();
+    let small: Vec<Req> = alpha.iter().filter(|r| !matches!(r, Req::Set(_, v) if v.len() > 1000)).cloned().collect();
     let depth = job.tier.pick(3, 4);
     let mut cases: Vec<(Vec<Req>, Delivery)> = vec![];
     // words over the 12 small requests (depth d), plus the big value at depth <= 2
@@ -772,7 +775,7 @@ fn c06(job: &Job, sh: &mut Shard, t0: Instant) {
         }
         // every single cut (big values: cuts near the ends and around the 8 KiB buffer boundary)
         let cut_pos: Vec<usize> = if has_big { (1..40).chain(8180..8200).chain((n - 40)..n).filter(|&c| c > 0 && c < n).collect() } else { (1..n).collect() };
-        if w.len() <= job.tier.pick(3, 3) {
+        if w.len() <= job.tier.pick(2, 3) {
             for &c in &cut_pos {
                 cases.push((w.clone(), Delivery::Cuts(vec![c])));
             }
@@ -872,7 +875,7 @@ pub fn report_meta(prop: &str, tier: Tier) -> (String, Value, Vec<String>) {
     ];
     match prop {
         "C06" => (
-            format!("request words over 12 small requests (SET/GET/DEL on keys a, b, c, é; values with CR LF NUL, empty) up to depth {} plus words of depth <= 2 containing a 9 000-byte value; each word's byte stream is delivered to a fresh real server whole (full pipelining), in lock-step, one byte per recv, with every single cut (words of length <= {}) and with every pair of cuts (words of length <= {}); the complete reply byte stream up to end-of-stream must equal the reference encoding of the map model's answers, and the store (read through the handle) must equal the model. Distinct+non-trivial = distinct request words.", tier.pick(3, 4), 3, tier.pick(1, 2)),
+            format!("request words over 14 small requests (incl. a three-key DEL whose first key is absent and a value ending in a lone CR) (SET/GET/DEL on keys a, b, c, é; values with CR LF NUL, empty) up to depth {} plus words of depth <= 2 containing a 9 000-byte value; each word's byte stream is delivered to a fresh real server whole (full pipelining), in lock-step, one byte per recv, with every single cut (words of length <= {}) and with every pair of cuts (words of length <= {}); the complete reply byte stream up to end-of-stream must equal the reference encoding of the map model's answers, and the store (read through the handle) must equal the model. Distinct+non-trivial = distinct request words.", tier.pick(3, 4), tier.pick(2, 3), tier.pick(1, 2)),
             json!({"depth": tier.pick(3, 4), "alphabet": c06_alphabet().iter().map(|r| r.show()).collect::<Vec<_>>()}),
             common,
         ),
